@@ -1052,6 +1052,94 @@ pub fn c14(eng: &mut Engine, rng: &mut Rng, thorough: bool, out: &mut Out) -> Ca
             }
         }
     }
+    // the envelope of the stored document (op w3c_envelope, model Envelope): which `@context` / `type` / `issuanceDate` make a well-formed document
+    {
+        let cred_base = serde_json::to_value(&eng.cast.creds[eng.cast.cred("a_alice")].w3c).unwrap();
+        let plan = crate::scen::gen_honest_plan(rng, &eng.cast, true, false);
+        let o = honest_vopts(&eng.cast, &plan);
+        let built = eng.build_w3c(&plan).ok();
+        let other_uris = ["https://www.w3.org/2018/credentials/v1/", "http://www.w3.org/2018/credentials/v1", "https://www.w3.org/2018/credentials/V1", "https://www.w3.org/ns/credentials/v2#",
+            "https://w3id.org/security/data-integrity/v1", "https://example.org/ctx", "did:example:ctx", "https://www.w3.org/ns/credentials/v1"];
+        let other_objs = [json!({"@vocab": "https://www.w3.org/ns/credentials/issuer-dependent"}), json!({"@vocab": "https://www.w3.org/ns/credentials/issuer-dependent#", "x": 1}), json!({}), json!("not a uri"), json!(7), Value::Null,
+            json!(["https://www.w3.org/2018/credentials/v1"]), json!(true), json!(" https://www.w3.org/2018/credentials/v1")];
+        let conc_ctx = |a: &Value| -> Value {
+            if let Some(u) = a.get("uri") {
+                match u.as_str() { Some("v11") => json!("https://www.w3.org/2018/credentials/v1"), Some("v20") => json!("https://www.w3.org/ns/credentials/v2"), Some("di") => json!("https://w3id.org/security/data-integrity/v2"),
+                    _ => json!(other_uris[u.as_u64().unwrap() as usize]) }
+            } else {
+                let k = a["obj"].as_u64().unwrap() as usize;
+                if k == 0 { json!({"@vocab": "https://www.w3.org/ns/credentials/issuer-dependent#"}) } else { other_objs[k - 1].clone() }
+            }
+        };
+        let rand_ctx = |rng: &mut Rng| -> Value {
+            match rng.below(10) { 0 | 1 => json!({"uri": "v11"}), 2 | 3 => json!({"uri": "v20"}), 4 | 5 => json!({"uri": "di"}), 6 | 7 => json!({"obj": 0}),
+                8 => json!({"uri": rng.below(other_uris.len() as u64)}), _ => json!({"obj": 1 + rng.below(other_objs.len() as u64)}) }
+        };
+        let type_pool = ["VerifiableCredential", "VerifiablePresentation", "AnonCredsCredential", "verifiablecredential", "VerifiableCredential ", ""];
+        let mut envs: Vec<(String, Vec<Value>, Vec<String>, bool, bool)> = vec![];   // (class, contexts, types, issuanceDate present, presentation?)
+        let (v11, v20, di, voc) = (json!({"uri":"v11"}), json!({"uri":"v20"}), json!({"uri":"di"}), json!({"obj":0}));
+        for pres in [false, true] {
+            let ty = if pres { "VerifiablePresentation" } else { "VerifiableCredential" };
+            // the two library forms, every permutation of the 1.1 form, each member dropped, each member replaced by every near miss
+            let forms: Vec<Vec<Value>> = vec![vec![v11.clone(), di.clone(), voc.clone()], vec![v20.clone(), voc.clone()], vec![v11.clone(), voc.clone(), di.clone()], vec![di.clone(), v11.clone(), voc.clone()],
+                vec![voc.clone(), v11.clone(), di.clone()], vec![voc.clone(), v20.clone()], vec![v20.clone(), di.clone(), voc.clone()], vec![v11.clone(), v20.clone(), voc.clone()], vec![v20.clone(), v11.clone(), voc.clone()], vec![]];
+            for f in &forms { for date in [true, false] { envs.push(("form".into(), f.clone(), vec![ty.into()], date, pres)); } }
+            for base in [&forms[0], &forms[1]] {
+                for i in 0..base.len() {
+                    let mut f = base.clone(); f.remove(i);
+                    envs.push(("member-dropped".into(), f, vec![ty.into()], true, pres));
+                    for k in 0..other_uris.len() { let mut f = base.clone(); f[i] = json!({"uri": k}); envs.push(("member-near-miss".into(), f, vec![ty.into()], true, pres)); }
+                    for k in 0..other_objs.len() { let mut f = base.clone(); f[i] = json!({"obj": k + 1}); envs.push(("member-near-miss".into(), f, vec![ty.into()], true, pres)); }
+                }
+                for t in type_pool { envs.push(("type".into(), base.clone(), vec![t.to_string()], true, pres)); }
+                envs.push(("type".into(), base.clone(), vec![], true, pres));
+                envs.push(("type".into(), base.clone(), vec!["X".into(), ty.into(), ty.into()], true, pres));
+            }
+            for _ in 0..(if thorough { 1500 } else { 150 }) {
+                // mostly-valid stream: a library form with its tail shuffled and up to two random entries inserted anywhere; one in three from scratch
+                let (f, cls): (Vec<Value>, &str) = if rng.chance(1, 3) {
+                    ((0..rng.below(6)).map(|_| rand_ctx(rng)).collect(), "random-scratch")
+                } else {
+                    let mut f = forms[rng.below(2) as usize].clone();
+                    if f.len() == 3 && rng.chance(1, 2) { f.swap(1, 2); }
+                    for _ in 0..rng.below(3) { let at = rng.below(f.len() as u64 + 1) as usize; let e = rand_ctx(rng); f.insert(at, e); }
+                    (f, "random-edited")
+                };
+                let mut ts: Vec<String> = (0..rng.below(3)).map(|_| type_pool[rng.below(type_pool.len() as u64) as usize].to_string()).collect();
+                if rng.chance(3, 4) { let at = rng.below(ts.len() as u64 + 1) as usize; ts.insert(at, ty.to_string()); }
+                envs.push((cls.into(), f, ts, rng.chance(3, 4), pres));
+            }
+        }
+        for (cls, ctx, types, date, pres) in envs {
+            let conc: Vec<Value> = ctx.iter().map(|a| conc_ctx(a)).collect();
+            let imp = if !pres {
+                let mut d = cred_base.clone();
+                d["@context"] = json!(conc); d["type"] = json!(types);
+                if !date { d.as_object_mut().unwrap().remove("issuanceDate"); }
+                match serde_json::from_str::<W3CCredential>(&d.to_string()) {
+                    Err(_) => json!({"unreadable": true}),
+                    Ok(c) => json!({"valid": credential_from_w3c(&c).is_ok(), "version": c.context.version().ok().map(|v| match v { Ver::V1_1 => "1.1", Ver::V2_0 => "2.0" })}),
+                }
+            } else {
+                let Some(b) = &built else { continue };
+                let mut d = serde_json::to_value(&b.pres).unwrap();
+                d["@context"] = json!(conc); d["type"] = json!(types);
+                match serde_json::from_str::<W3CPresentation>(&d.to_string()) {
+                    Err(_) => json!({"unreadable": true}),
+                    Ok(p) => {
+                        let (v, _) = eng.verify_w3c(&p, &b.req, &o);
+                        // a presentation is verified (true) when its envelope is well-formed and refused with an error otherwise: never false, never a crash
+                        if v != "T" && v != "E" {
+                            out.oracle_fail("an honest W3C presentation with an edited envelope was neither accepted nor refused with an error", &json!({"fam":"c14.envelope","sig":"","ctx":ctx,"types":types}), &json!(v));
+                        }
+                        json!({"valid": v == "T", "version": p.version().ok().map(|v| match v { Ver::V1_1 => "1.1", Ver::V2_0 => "2.0" })})
+                    }
+                }
+            };
+            out.count(&format!("c14:envelope:{}:{}:{}", if pres { "presentation" } else { "credential" }, cls, if imp["valid"] == json!(true) { "valid" } else { "refused" }));
+            cases.push((json!({"op":"w3c_envelope","fam":"c14.envelope","cls":cls,"ctx":ctx,"types":types,"date":date,"kind": if pres { "presentation" } else { "credential" },"nt":true}), imp));
+        }
+    }
     // the `proof` member of the stored document (op proof_doc, model ProofDoc): which proof the getters find in every spelling
     {
         let base = serde_json::to_value(&eng.cast.creds[eng.cast.cred("a_alice")].w3c).unwrap();
